@@ -258,6 +258,13 @@ func (u *PacketUnderlay) RunEventLoop(ctx context.Context) error {
 						block:     seg.block,
 					}
 					if err := u.writeOneSegment(closeReq, addr); err != nil {
+						if !u.isClient {
+							// A server underlay is shared by all the peers. A reply that
+							// can't be sent to one peer (for example to UDP port 0) must
+							// not end the service for everyone else.
+							log.Debugf("%v failed to request peer %v to close session %d: %v", u, addr, das.sessionID, err)
+							continue
+						}
 						return fmt.Errorf("writeOneSegment() failed: %w", err)
 					}
 				}
